@@ -87,6 +87,38 @@ def run_property(P, tier, seed, replay=None):
             for prof, binary in bins.items():
                 lines = ["%s %s %s" % (c.id, c.comp, kv.xtext(c.x)) for c in again if c.profile == prof]
                 impl.update(kv._run_sharded(binary, lines, shards=4, timeout=900, per_shard=8))
+    # cases without any implementation output: their harness process died or was killed before it reached them (one case that
+    # crashes a shard takes the cases behind it along).  They are run again - first in small shards, then every remaining one in a
+    # process of its own - so that only a case that kills the harness by itself stays without output; such a case is reported.
+    dies_alone = []
+    if harness_error is None and not replay:
+        def missing():
+            return [c for c in cases if c.id not in impl and c.profile in bins]
+        lost = missing()
+        if lost:
+            retried = max(retried, len(lost))
+            for prof, binary in bins.items():
+                lines = ["%s %s %s" % (c.id, c.comp, kv.xtext(c.x)) for c in lost if c.profile == prof]
+                impl.update(kv._run_sharded(binary, lines, shards=4, timeout=900, per_shard=8))
+            lost = missing()
+            for k in range(0, min(len(lost), 96), 8):
+                group = lost[k:k + 8]
+                import threading
+                outs = {}
+
+                def one(c):
+                    outs.update(kv._run_sharded(bins[c.profile], ["%s %s %s" % (c.id, c.comp, kv.xtext(c.x))], shards=1, timeout=600))
+                ths = [threading.Thread(target=one, args=(c,)) for c in group]
+                for t in ths:
+                    t.start()
+                for t in ths:
+                    t.join()
+                impl.update(outs)
+                dies_alone += [c for c in group if c.id not in impl]
+            # the cases that got their output only now may be harness trouble themselves
+            for c in cases:
+                if c.id in impl and trouble(c, impl[c.id]):
+                    pass
     troubled = [c for c in cases if c.id in impl and trouble(c, impl[c.id])]
     troubled_ids = {c.id for c in troubled}
 
@@ -238,8 +270,12 @@ def run_property(P, tier, seed, replay=None):
     # a component none of whose cases is comparable any more is no longer tied to the code
     dead = sorted(comp for comp, n in n_by_comp.items()
                   if n >= 5 and ood_by_comp.get(comp, 0) == n and comp not in getattr(P, "OOD_ONLY_COMPONENTS", ()))
-    if cases and harness_error is None and (not_executed > max_ne or dead):
+    if cases and harness_error is None and (not_executed > max_ne or dead or dies_alone):
         why = []
+        if dies_alone:
+            why.append("the implementation harness dies on %d case(s) even when each is run in a process of its own (first: %s %s)" % (
+                len(dies_alone), dies_alone[0].id, dies_alone[0].comp))
+            not_executed_cases = [(c, "harness process dies on this case") for c in dies_alone] + not_executed_cases
         if not_executed > max_ne:
             why.append("%d of %d cases could not be executed (first: %s)" % (
                 not_executed, len(cases), "; ".join("%s %s: %s" % (c.id, c.comp, w) for c, w in not_executed_cases[:3])))
